@@ -166,7 +166,7 @@ def unnest_multineg(j, counter):
     return gen.with_children(j, new)
 
 
-def pattern(m, cls):
+def pattern(m, cls, flags=None):
     """name of the known root cause whose syntactic trigger the minimal failing tree shows, or None"""
     if cls == 'algebra' and nested_multineg(m):
         return 'nested-negated-product-loses-factors'
@@ -183,7 +183,31 @@ def pattern(m, cls):
         return 'nested-quotients-merged'
     if m[0] in PRODUCTS and any(n[0] in QUOTS for n in walk(m)):
         return 'product-factor-moved-into-numerator'
+    if flags is not None and real_operand_becomes_integer(m, flags):
+        return 'real-operand-simplified-to-integer-typed'
     return None
+
+
+def real_operand_becomes_integer(m, flags):
+    """
+    some real-typed operator subtree of m (real only through real literal factors/terms, e.g. 1.0*i,
+    2.0*0.5*i, 0.0 + i) is simplified on its own to an integer-typed tree: the enclosing division or
+    power is then evaluated in integer arithmetic. One root cause (literal folding drops the real unit),
+    whatever operator encloses it.
+    """
+    for n in walk(m):
+        if n[0] in gen.LEAVES or typeof(n) != 'real':
+            continue
+        dec = gen.Decoder()
+        try:
+            S = gen.encode(run_simplify(dec.dec(n), flags))
+        except Exception:  # noqa: not encodable / raises: not this pattern
+            continue
+        finally:
+            del dec
+        if typeof(S) == 'int':
+            return True
+    return False
 
 
 def exact_equal(m, flags):
@@ -207,7 +231,7 @@ def classify(j, flags, o, shrink_budget=120):
         cls = 'introduces-division-by-zero'
     else:
         cls = 'algebra'
-    name = pattern(m, cls)
+    name = pattern(m, cls, mf)
     if name:
         return f'C08:{cls}:{name}', m, mf, om
     return f'C08:{cls}:{flags_name(mf)}:{gen.abstract(m)}', m, mf, om
